@@ -231,3 +231,8 @@ REG.stub(("method", "conc:regex", "search"), const_search)
 REG.stub("contextlib.nullcontext", lambda run, args, kwargs, node: Conc(("cm", (lambda: (args[0] if args else NONE)), (lambda exc: False))))
 
 REG.stub(("method", "ReMatch", "span"), lambda run, obj, args, kwargs, node: VTuple([Val(TInt, MATCH.proj(obj.t, 0)), Val(TInt, MATCH.proj(obj.t, 1))]))
+
+
+# type(x).__name__ (only ever used to build messages): an opaque class object with an arbitrary name
+REG.stub(("builtin", "type"), lambda run, args, kwargs, node: Conc(("obj_kind", "typeof")))
+REG.stub(("getattr", "conc:obj_kind:typeof", "__name__"), lambda run, obj, node: Val(TStr, z3.FreshConst(z3.StringSort(), "type_name")))
